@@ -1,7 +1,7 @@
 import CalicoVerif.Util.Proto
 import CalicoVerif.Model.C40
 /-! Driver for C40: prints the model's static chains as iptables text.  Ops
-  `cfg <ipip> <vxlan> <vxport> <toHost> <filterAllow> <mangleAllow> <deny> <noInvalid> <prefixes> <failsafeIn> <failsafeOut>`
+  `cfg <ipt|nft> <ipip> <vxlan> <vxport> <toHost> <filterAllow> <mangleAllow> <deny> <noInvalid> <prefixes> <failsafeIn> <failsafeOut>`
   `static <filter|raw|mangle> <chain>` | `hep <filter-in|filter-out|raw-in|raw-out|mangle-in> <iface> <tiers|->`
   `wldispatch <from|to> <iface|->` | `hepdispatch <iface|->`
 -/
@@ -41,8 +41,12 @@ def parsePorts (s : String) : Option (List ProtoPort) :=
     | [pr, port, net] => do
       let n ← protoNumOf pr
       let port ← port.toNat?
-      let net ← parseCidr net
-      pure { protoName := pr, protoNum := n, port := port, net := some net }
+      if net.startsWith "v6-" then
+        -- an IPv6 net (written v6-<hex groups joined by '-'>/len in the op): skipped by the IPv4 chains
+        pure { protoName := pr, protoNum := n, port := port, otherFamily := true }
+      else
+        let net ← parseCidr net
+        pure { protoName := pr, protoNum := n, port := port, net := some net }
     | _ => none)
 
 def parseTiers (s : String) : Option (List Tier) :=
@@ -65,43 +69,61 @@ def parseKind (s : String) : Option HepKind :=
 
 def ifaceList (s : String) : List String := if s == "-" then [] else s.splitOn ","
 
-def stepC (c : Config) (line : String) : Config × String :=
+structure DC where
+  cfg : Config
+  nft : Bool
+
+def rc (d : DC) (name : String) (rs : List Rule) : String :=
+  if d.nft then renderChainNft name rs else renderChain name rs
+
+def stepC (d : DC) (line : String) : DC × String :=
+  let c := d.cfg
   match words line with
-  | ["cfg", ipip, vx, vxport, toHost, fa, ma, deny, noInv, pfx, fin, fout] =>
+  | ["cfg", mode, ipip, vx, vxport, toHost, fa, ma, deny, noInv, pfx, fin, fout] =>
     match vxport.toNat?, parseAction toHost, parseAction fa, parseAction ma, parsePorts fin, parsePorts fout with
     | some vxport, some toHost, some fa, some ma, some fin, some fout =>
-      if deny != "DROP" then (c, "bad-op") else
-      ({ ipip := ipip == "1", vxlan := vx == "1", vxlanPort := vxport, toHost := toHost, filterAllow := fa,
-         mangleAllow := ma, disableCtInvalid := noInv == "1", prefixes := pfx.splitOn ",",
-         failsafeIn := fin, failsafeOut := fout }, "ok")
-    | _, _, _, _, _, _ => (c, "bad-op")
+      if deny != "DROP" || (mode != "ipt" && mode != "nft") then (d, "bad-op") else
+      let cfg : Config :=
+        { ipip := ipip == "1", vxlan := vx == "1", vxlanPort := vxport, toHost := toHost, filterAllow := fa,
+          mangleAllow := ma, disableCtInvalid := noInv == "1", prefixes := pfx.splitOn ",",
+          failsafeIn := fin, failsafeOut := fout }
+      ({ cfg := cfg, nft := mode == "nft" }, "ok")
+    | _, _, _, _, _, _ => (d, "bad-op")
   | ["static", table, chain] =>
-    if chain == chFailsafeIn then (c, renderChain chain (failsafeInChain c (table == "raw")))
-    else if chain == chFailsafeOut then (c, renderChain chain (failsafeOutChain c (table == "raw")))
-    else if table == "filter" && chain == chInput then (c, renderChain chain (filterInputChain c))
-    else if table == "filter" && chain == chWlToHost then (c, renderChain chain (wlToHostChain c))
-    else if table == "filter" && chain == chForward then (c, renderChain chain (filterForwardChain c))
-    else (c, "bad-op")
+    if chain == chFailsafeIn then (d, rc d chain (failsafeInChain c (table == "raw")))
+    else if chain == chFailsafeOut then (d, rc d chain (failsafeOutChain c (table == "raw")))
+    else if table == "filter" && chain == chInput then (d, rc d chain (filterInputChain c))
+    else if table == "filter" && chain == chWlToHost then (d, rc d chain (wlToHostChain c))
+    else if table == "filter" && chain == chForward then (d, rc d chain (filterForwardChain c))
+    else if table == "filter" && chain == chOutput then (d, rc d chain (filterOutputChain c))
+    else if table == "raw" && chain == chRawPrerouting then (d, rc d chain (rawPreroutingChain c))
+    else if table == "raw" && chain == chRawOutput then (d, rc d chain (rawOutputChain c))
+    else if table == "mangle" && chain == chRawPrerouting then (d, rc d chain (manglePreroutingChain c))
+    else (d, "bad-op")
   | ["hep", kind, iface, tiers] =>
     match parseKind kind, parseTiers tiers with
-    | some k, some ts => (c, renderChain (hepChainName k iface) (hepChain c k ts))
-    | _, _ => (c, "bad-op")
+    | some k, some ts => (d, rc d (hepChainName k iface) (hepChain c k ts))
+    | _, _ => (d, "bad-op")
   | ["wldispatch", dir, ifs] =>
-    if dir == "from" then (c, renderChain chFromWlDispatch (wlDispatchChain true (ifaceList ifs)))
-    else if dir == "to" then (c, renderChain chToWlDispatch (wlDispatchChain false (ifaceList ifs)))
-    else (c, "bad-op")
+    if dir != "from" && dir != "to" then (d, "bad-op") else
+    let name := if dir == "from" then chFromWlDispatch else chToWlDispatch
+    if d.nft then
+      -- nftables: the per-interface rules live in a verdict map, not in the rule text
+      (d, name ++ ": " ++ (if dir == "from" then "iifname" else "oifname") ++ " vmap @-" ++ name ++ " ;; " ++
+          name ++ ": counter drop #Unknown interface")
+    else (d, renderChain name (wlDispatchChain (dir == "from") (ifaceList ifs)))
   | ["hepdispatch", ifs] =>
-    (c, renderChain chFromHep (hepDispatchChain true (ifaceList ifs)) ++ " @@ " ++
-        renderChain chToHep (hepDispatchChain false (ifaceList ifs)))
-  | _ => (c, "bad-op")
+    (d, rc d chFromHep (hepDispatchChain true (ifaceList ifs)) ++ " @@ " ++
+        rc d chToHep (hepDispatchChain false (ifaceList ifs)))
+  | _ => (d, "bad-op")
 
 def emptyCfg : Config :=
   { ipip := false, vxlan := false, vxlanPort := 0, toHost := .drop, filterAllow := .accept, mangleAllow := .accept,
     disableCtInvalid := false, prefixes := [], failsafeIn := [], failsafeOut := [] }
 
-def step (c : Option Config) (line : String) : Option Config × String :=
+def step (c : Option DC) (line : String) : Option DC × String :=
   if line.startsWith "cfg " then
-    let (c', o) := stepC (c.getD emptyCfg) line
+    let (c', o) := stepC (c.getD { cfg := emptyCfg, nft := false }) line
     if o == "ok" then (some c', o) else (c, o)
   else match c with
     | none => (none, "bad-state")
